@@ -73,6 +73,13 @@ def run(run, tier):
                                       {'case': name, 'seed': s, 'plain': str(val)[:300], 'full': str(cols)[:300]})
             if len(samples) < 3 and name.startswith('fast_SIS/str'):
                 samples.append({'case': name, 'seed': s, 'output_prefix': str(val)[:200]})
+    # static part of the sentinel: the reproducibility argument (Props/C18.v: same calls => same draws) assumes the module-level
+    # functions of `random` / `numpy.random` are the ONLY entropy the library touches; scan the source for any other generator or clock
+    hits = entropy_scan()
+    stats['entropy_scan'] = {'files': sorted(ENTROPY_FILES), 'hits': hits}
+    if hits:
+        run.violation('C18/entropy-static', 'the library source mentions an entropy source other than the seeded module-level random / numpy.random functions: %s' % hits[:6],
+                      {'broken': 'assumption of coq/Props/C18.v (C18_same_calls_same_draws): all randomness comes through the seeded module-level generators', 'hits': hits}, no_input=True)
     # entropy sentinel: no other source than random / numpy.random
     sent = subprocess.run(['/venv/bin/python', '-c', SENTINEL], capture_output=True, text=True, env=dict(os.environ, EON_REPO=C.REPO, PYTHONHASHSEED='0', VERIF_DIR=C.VERIF), timeout=600)
     stats['sentinel'] = sent.stdout.strip()[-300:]
@@ -83,6 +90,41 @@ def run(run, tier):
     C.proof_coverage(run, props, n_eval, n_eval - stats['exceptions'],
                      'battery of %d simulator calls per seed (every simulator; weighted/unweighted; plain/full data; rho; str/tuple/int node names; string and tuple statuses) x %d seeds x %d interpreter processes with different PYTHONHASHSEED + one repeat; compared byte-wise (repr of floats). Non-trivial = the call returned (did not raise).' % (stats['cases_per_seed'], len(seeds), len(hs)),
                      samples, {'distribution': stats})
+
+
+ENTROPY_FILES = ('EoN/simulation.py', 'EoN/analytic.py', 'EoN/auxiliary.py', 'EoN/__init__.py')
+ENTROPY_NAMES = {'Random', 'SystemRandom', 'urandom', 'getrandom', 'default_rng', 'RandomState', 'Generator', 'SeedSequence', 'getrandbits', 'randbytes',
+                 'uuid', 'uuid1', 'uuid4', 'secrets', 'token_bytes', 'time_ns', 'perf_counter', 'perf_counter_ns', 'monotonic', 'monotonic_ns', 'process_time',
+                 'datetime', 'getpid', 'id', 'hash', 'object_id', 'clock'}
+
+
+def entropy_scan():
+    """names of generators / clocks / identity hashes anywhere in the library source (ast: Name, Attribute, import);
+    `time` only as the module (`import time`, `time.time`)"""
+    import ast
+    hits = []
+    for rel in ENTROPY_FILES:
+        path = os.path.join(C.REPO, rel)
+        if not os.path.exists(path): continue
+        import warnings
+        with warnings.catch_warnings():
+            warnings.simplefilter('ignore')
+            tree = ast.parse(open(path).read())
+        for node in ast.walk(tree):
+            nm = None
+            if isinstance(node, ast.Name): nm = node.id
+            elif isinstance(node, ast.Attribute):
+                nm = node.attr
+                if isinstance(node.value, ast.Name) and node.value.id == 'time' and isinstance(node.ctx, ast.Load) and nm in ('time', 'sleep'): nm = 'time.' + nm
+            elif isinstance(node, (ast.Import, ast.ImportFrom)):
+                for a in node.names:
+                    base = (getattr(node, 'module', None) or a.name).split('.')[0]
+                    if base in ('time', 'secrets', 'uuid', 'datetime', 'os') and base != 'os' or a.name.split('.')[-1] in ENTROPY_NAMES:
+                        hits.append('%s:%d import %s' % (rel, node.lineno, a.name))
+                continue
+            if nm in ENTROPY_NAMES or nm == 'time.time':
+                hits.append('%s:%d %s' % (rel, node.lineno, nm))
+    return hits
 
 
 SENTINEL = r'''
